@@ -386,3 +386,221 @@ Proof.
   - eapply used_raw; eauto; [eapply reachf_inv|eapply reachf_inv2]; eauto.
   - eapply used_settle; eauto. eapply reachf_inv; eauto.
 Qed.
+
+(** * While the server is stopped nothing is reserved and only id-less notifications are queued *)
+Definition notes_only (q : list (bool * list jmsg)) : Prop :=
+  Forall (fun bm => Forall (fun m => fix_id (j_id m) = []) (snd bm)) q.
+Definition inv_idle (s : state) : Prop := running s = false -> used s = [] /\ notes_only (inq s).
+
+Lemma stop_queue_notes q : notes_only (stop_queue q).
+Proof.
+  unfold notes_only, stop_queue. apply Forall_forall. intros bm Hin.
+  apply in_concat in Hin as (l & Hl & Hin). apply in_map_iff in Hl as (bm0 & <- & _).
+  apply in_map_iff in Hin as (m & <- & Hm). apply filter_In in Hm as [_ Hk]. cbn.
+  constructor; [|constructor]. unfold keep_note, is_notification in Hk.
+  apply andb_true_iff in Hk as [Hk _]. apply andb_true_iff in Hk as [_ Hk]. apply beq_eq in Hk. auto.
+Qed.
+
+Lemma reserve_notes ts : forall base us, (forall t, In t ts -> t_id t = []) -> reserve base ts us = us.
+Proof.
+  induction ts as [|a r IH]; cbn; intros base us H; auto.
+  rewrite (H a (or_introl eq_refl)). cbn. rewrite andb_false_r. apply IH. auto.
+Qed.
+
+Lemma rel_used_nil ts : rel_used ts [] = [].
+Proof. induction ts as [|a r IH]; cbn; auto. destruct (t_hasctx a && negb (is_note a)); auto. Qed.
+
+Lemma idle_same s s' : inv_idle s -> (running s' = false -> running s = false /\ used s' = used s /\ inq s' = inq s) ->
+  inv_idle s'.
+Proof. intros Ii H R. destruct (H R) as (R0 & U & Q). rewrite U, Q. auto. Qed.
+
+Lemma idle_dequeue s : inv_idle s -> inv_idle (dequeue s).
+Proof.
+  intros Ii. unfold dequeue. destruct (inq s) as [|[batch ms] q] eqn:Q.
+  - destruct (running s) eqn:R; intros R'; cbn in *; [congruence|]. rewrite Q. destruct (Ii R) as [U _].
+    split; auto. constructor.
+  - intros R. cbn in *. destruct (Ii R) as [U N]. rewrite Q in N.
+    pose proof (Forall_inv N) as Hx. pose proof (Forall_inv_tail N) as Hl. cbn in Hx. split; auto.
+    rewrite U. apply reserve_notes. intros t Ht. apply in_map_iff in Ht as (m & <- & Hm).
+    rewrite mk_task_id. rewrite Forall_forall in Hx. auto.
+Qed.
+
+Lemma idle_raw s l s' os : inv s -> inv_idle s -> step_raw s l = Some (s', os) -> inv_idle s'.
+Proof.
+  intros I Ii H. destruct (frame_label l) eqn:Fl.
+  { apply step_raw_frame in H as (C & _ & Q); auto. unfold core in C. injection C as T U Us W F D R G Rn B.
+    apply (idle_same s); auto. intros; repeat split; congruence. }
+  destruct (taskonly_label l) eqn:Tl.
+  { destruct (raw_taskonly_used _ _ _ _ I Tl H) as (L & [(U & Rn & Q)|(U & Rn & Q)]).
+    - apply (idle_same s); auto. intros; repeat split; congruence.
+    - intros _. rewrite U, Q. split; auto. apply stop_queue_notes. }
+  destruct l; try discriminate Fl; try discriminate Tl; unfold step_raw in H.
+  - destruct (negb (running s) && (wg s =? 0)); [|discriminate]. injection H as <- <-. intros R. discriminate.
+  - destruct (rd s) as [| |f|] eqn:R; try discriminate. injection H as H.
+    destruct f as [i|i|c].
+    3:{ cbn in H. destruct (stop_locked c s) as [s1 os1] eqn:St. injection H as <- <-.
+        apply stop_locked_spec in St as [(_ & -> & _)|(_ & _ & P)].
+        - apply (idle_same s); auto.
+        - destruct P. intros _. cbn. rewrite sp_used, sp_inq. split; auto. apply stop_queue_notes. }
+    all: destruct (running s) eqn:Rn;
+      [ eapply read_cs_msg in H as (C & _); eauto; unfold core0 in C; injection C as T U Us W F D Gw Rn' Bn;
+        intros R'; congruence
+      | cbn in H; rewrite Rn in H; cbn in H; injection H as <- <-; apply (idle_same s); auto ].
+  - destruct (dp s); try discriminate. injection H as <- <-. apply idle_dequeue; auto.
+  - destruct (dp s); try discriminate. injection H as <- <-. apply (idle_same s); auto.
+  - destruct (nth_error (units s) u) as [un|] eqn:E; [|discriminate].
+    destruct (u_st un) eqn:Su; try discriminate.
+    destruct (release_ids_spec (unit_tasks s u) s) as [_ _ _ (_ & _ & _ & _ & Rn & _ & Q & _) _ U _].
+    set (s1 := release_ids (unit_tasks s u) s) in *.
+    destruct (u_chok un); cbn in H; injection H as <- <-; intros R; cbn in *;
+      rewrite Rn in R; destruct (Ii R) as [U0 N]; rewrite U, U0, Q, rel_used_nil; auto.
+Qed.
+
+Lemma idle_settle s s' os : inv_idle s -> settle1 s = Some (s', os) -> inv_idle s'.
+Proof.
+  intros Ii H. apply settle1_inv in H. destruct H; try (apply (idle_same s); auto; fail).
+  apply idle_dequeue; auto.
+Qed.
+
+Theorem reachf_inv_idle c s : reachf c s -> inv_idle s.
+Proof.
+  induction 1.
+  - intros _. cbn. split; auto. constructor.
+  - eapply idle_raw; eauto. eapply reachf_inv; eauto.
+  - eapply idle_settle; eauto.
+Qed.
+
+(** * C07.1: an id is reserved exactly from dequeue to deliver *)
+Theorem c07_inv_used c s : reach c s ->
+  (forall id k, In (id, k) (used s) ->
+     exists t un, nth_error (tasks s) k = Some t /\ t_id t = id /\ id <> [] /\ t_hasctx t = true /\
+                  nth_error (units s) (t_unit t) = Some un /\ u_st un <> UFinished) /\
+  NoDup (map fst (used s)) /\
+  (running s = true -> crash s = None ->
+   forall k t un, nth_error (tasks s) k = Some t -> t_hasctx t = true -> t_id t <> [] ->
+     nth_error (units s) (t_unit t) = Some un -> u_st un <> UFinished -> assoc (t_id t) (used s) = Some k) /\
+  (running s = false -> used s = []).
+Proof.
+  intros R. apply reach_reachf in R. destruct (reachf_inv_used _ _ R) as [A B C].
+  split; [|split; [|split]]; auto.
+  - intros id k Hin. destruct (A _ _ Hin) as (t & E & Ei & Ni & Hc & un & Eu & Su). exists t, un. repeat split; auto.
+  - intros Rn Cr k t un E Hc Ni Eu Su. apply C; auto. exists un. auto.
+  - intros Rn. apply (reachf_inv_idle _ _ R Rn).
+Qed.
+
+(** * C07.2: who can cancel a context *)
+Definition keeps_tasks (a b : state) : Prop := forall k t, nth_error (tasks a) k = Some t -> nth_error (tasks b) k = Some t.
+
+Lemma settle1_keeps s s' os : settle1 s = Some (s', os) -> keeps_tasks s s'.
+Proof.
+  intros H. apply settle1_inv in H. destruct H; intros k t E; cbn; auto.
+  unfold dequeue. destruct (inq s) as [|[b ms] q]; [destruct (running s); auto|].
+  cbn. apply nth_error_app_old; auto.
+Qed.
+
+Lemma settle_keeps : forall fuel s acc s' os, settle fuel s acc = (s', os) -> keeps_tasks s s'.
+Proof.
+  induction fuel as [|f IH]; cbn; intros s acc s' os H.
+  - injection H as <- _. intros k t E; auto.
+  - destruct (settle1 s) as [[s1 os1]|] eqn:E.
+    + apply settle1_keeps in E. apply IH in H. intros k t Ek. auto.
+    + injection H as <- _. intros k t Ek; auto.
+Qed.
+
+Lemma find_op_some n l o : find_op n l = Some o -> In o l /\ op_num o = n.
+Proof. unfold find_op. intros H. apply find_some in H as [I E]. apply Nat.eqb_eq in E. auto. Qed.
+
+Inductive cancel_cause (s : state) (k : nat) (t : task) : label -> Prop :=
+| CC_cancel n id : find_op n (ops s) = Some (OpCancel n id) -> assoc id (used s) = Some k -> t_id t = id ->
+    cancel_cause s k t (LRelCancel n)
+| CC_stop n : cancel_cause s k t (LRelStop n)
+| CC_read_err e : rd s = RHold (FErr e) -> cancel_cause s k t LRelRead
+| CC_deliver : cancel_cause s k t (LRelDeliver (t_unit t)).
+
+Lemma cancel_targets_raw c s l s1 os k t t' : reachf c s -> crash s = None -> step_raw s l = Some (s1, os) ->
+  nth_error (tasks s) k = Some t -> nth_error (tasks s1) k = Some t' ->
+  t_cancelled t = false -> t_cancelled t' = true -> cancel_cause s k t l.
+Proof.
+  intros R Cr H E E' C0 C1.
+  pose proof (reachf_inv _ _ R) as I. pose proof (reachf_inv_used _ _ R) as Iu.
+  pose proof (reachf_inv_idle _ _ R) as Ii.
+  assert (Same : tasks s1 = tasks s -> cancel_cause s k t l).
+  { intros T. rewrite T, E in E'. injection E' as <-. congruence. }
+  destruct (frame_label l) eqn:Fl.
+  { apply step_raw_frame in H as (C & _); auto. unfold core in C. injection C as T _. auto. }
+  destruct l; try discriminate Fl; unfold step_raw in H.
+  - destruct (negb (running s) && (wg s =? 0)); [|discriminate]. injection H as <- <-. auto.
+  - destruct (find_idx _ 0 (tasks s)) as [j|]; [|discriminate].
+    destruct (nth_error (tasks s) j) as [tj|] eqn:Ej; [|discriminate]. injection H as <- <-.
+    cbn in E'. rewrite nth_error_upd_nth, E in E'. destruct (j =? k); cbn in E'; injection E' as <-; cbn in C1; congruence.
+  - destruct (rd s) as [| |f|] eqn:Rd; try discriminate. injection H as H.
+    destruct f as [i|i|e]; [| |eapply CC_read_err; eauto].
+    all: destruct (running s) eqn:Rn;
+      [ eapply read_cs_msg in H as (C & _); eauto; unfold core0 in C; injection C as T _; auto
+      | cbn in H; rewrite Rn in H; cbn in H; injection H as <- <-; auto ].
+  - destruct (dp s); try discriminate. injection H as <- <-.
+    unfold dequeue in E'.
+    destruct (inq s) as [|[b ms] q]; [destruct (running s); cbn in E'; rewrite E in E'; injection E' as <-; congruence|].
+    cbn in E'. rewrite (nth_error_app_old _ _ _ _ E) in E'. injection E' as <-. congruence.
+  - destruct (dp s); try discriminate. injection H as <- <-. auto.
+  - destruct (nth_error (tasks s) k0) as [tj|] eqn:Ej; [|discriminate].
+    destruct (t_st tj); try discriminate.
+    destruct (negb (unit_running s tj)); [discriminate|].
+    assert (Q : forall x, nth_error (upd_nth k0 (fun t => t <| t_st := x |>) (tasks s)) k = Some t' -> False).
+    { intros x Q. rewrite nth_error_upd_nth, E in Q. destruct (k0 =? k); cbn in Q; injection Q as <-; cbn in C1; congruence. }
+    destruct (t_cancelled tj); [injection H as <- <-; destruct (Q _ E')|].
+    destruct (sem_free s); [injection H as <- <-; destruct (Q _ E')|].
+    destruct (sem_wait s); [|injection H as <- <-; destruct (Q _ E')].
+    destruct (t_builtin tj); injection H as <- <-; destruct (Q _ E').
+  - destruct (nth_error (tasks s) k0) as [tj|] eqn:Ej; [|discriminate].
+    destruct (t_st tj) eqn:St; try discriminate.
+    set (s0 := set_task k0 (fun t => t <| t_st := TDone (body_of_outcome t o) |>) s <| sem_free ::= S |>) in *.
+    assert (W0 : wait_ok s0).
+    { unfold wait_ok, s0; cbn. apply wait_ok_upd; [apply I|]. eapply wait_not_in; eauto; [apply I|congruence]. }
+    pose proof (grant_spec (S (length (sem_wait s0))) s0 [] W0) as G.
+    destruct (grant (S (length (sem_wait s0))) s0 []) as [s2 os2]. cbn [fst snd] in G.
+    assert (E2 : nth_error (tasks s2) k = Some t').
+    { destruct (is_note tj); [destruct (nbar s2)|]; injection H as <- <-; exact E'. }
+    assert (E0 : exists t0, nth_error (tasks s0) k = Some t0 /\ t_cancelled t0 = false).
+    { unfold s0; cbn. rewrite nth_error_upd_nth, E. destruct (k0 =? k); cbn; eauto. }
+    destruct E0 as (t0 & E0 & C00). rewrite (gp_canc _ _ _ _ G _ _ _ E0 E2) in C1. congruence.
+  - destruct (nth_error (units s) u) as [un|] eqn:Eu; [|discriminate].
+    destruct (u_st un) eqn:Su; try discriminate.
+    destruct (release_ids_spec (unit_tasks s u) s) as [_ _ _ (_ & _) _ _ Cn].
+    set (s0 := release_ids (unit_tasks s u) s) in *.
+    assert (E0 : nth_error (tasks s0) k = Some t').
+    { destruct (u_chok un); cbn in H; injection H as <- <-; exact E'. }
+    destruct (Cn _ _ _ E E0 C0 C1) as (t0 & I0 & Hc0 & Nn0 & As0).
+    destruct (running s) eqn:Rn.
+    2:{ destruct (Ii Rn) as [U0 _]. rewrite U0 in As0. discriminate. }
+    unfold unit_tasks in I0. apply filter_In in I0 as [I0 Eu0]. apply Nat.eqb_eq in Eu0.
+    apply In_nth_error in I0 as [k1 E1].
+    assert (As1 : assoc (t_id t0) (used s) = Some k1).
+    { apply (iu_rec _ Iu); auto.
+      - apply is_nil_false. exact Nn0.
+      - exists un. rewrite Eu0. split; auto. congruence. }
+    rewrite As0 in As1. injection As1 as <-. rewrite E in E1. injection E1 as <-.
+    rewrite <- Eu0. apply CC_deliver.
+  - apply CC_stop.
+  - destruct (find_op n (ops s)) as [[n0|n0 id|n0 w m p]|] eqn:Fo; try discriminate.
+    injection H as <- <-. cbn in E'.
+    destruct (assoc id (used s)) as [owner|] eqn:As; [|cbn in E'; rewrite E in E'; injection E' as <-; congruence].
+    destruct (Nat.eq_dec k owner) as [->|N].
+    + apply find_op_some in Fo as Fo'. destruct Fo' as [_ Fn]. cbn in Fn. subst n0.
+      eapply CC_cancel; eauto.
+      apply assoc_in in As. destruct (iu_in _ Iu _ _ As) as (t1 & E1 & Ei & _). congruence.
+    + rewrite cancel_task_other in E' by auto. cbn in E'. rewrite E in E'. injection E' as <-. congruence.
+Qed.
+
+Theorem c07_cancel_targets c s l s' os k t t' : reach c s -> step s l = Some (s', os) ->
+  nth_error (tasks s) k = Some t -> nth_error (tasks s') k = Some t' ->
+  t_cancelled t = false -> t_cancelled t' = true -> cancel_cause s k t l.
+Proof.
+  intros R H E E' C0 C1. apply reach_reachf in R.
+  apply step_decompose in H as (Cr & s1 & os1 & Hr & [(_ & -> & _)|(_ & Hs)]).
+  - eapply cancel_targets_raw; eauto.
+  - apply settle_keeps in Hs.
+    destruct (raw_step_ok _ _ _ _ (reachf_inv _ _ R) Hr) as [_ [X _]].
+    destruct (X _ _ E) as (t1 & E1 & _). pose proof (Hs _ _ E1) as E1'. rewrite E' in E1'. injection E1' as ->.
+    eapply cancel_targets_raw; eauto.
+Qed.
